@@ -306,7 +306,8 @@ def main():
         except BuildError as e:
             c.proof_broken = ('coqchk OW.Properties.C07', e.output[-3000:])
     try:
-        build_driver()
+        import glob as _g
+        build_driver(sorted({os.path.basename(f)[:-8] for f in _g.glob(os.path.join(OCAML, 'registry.d', '*.kernels'))}) + ['c07'])
         build_harness(['simgen'])
         owsim, note, missing = c07hooks.build_owsim(race=False)
         notes.append(note)
